@@ -23,6 +23,7 @@ type found struct {
 	ops    []op
 	detail string
 	count  int
+	probe  string // an implementation-only probe instead of an op history
 }
 
 type collector struct {
@@ -120,7 +121,11 @@ func (c *collector) summary(path string) {
 	sort.Strings(sigs)
 	for _, k := range sigs {
 		x := c.found[k]
-		fmt.Fprintf(f, "PROPFAIL %s ## %d ## %s ## %s\n", x.sig, x.count, opsString(x.ops), x.detail)
+		ops := opsString(x.ops)
+		if x.probe != "" {
+			ops = x.probe
+		}
+		fmt.Fprintf(f, "PROPFAIL %s ## %d ## %s ## %s\n", x.sig, x.count, ops, x.detail)
 	}
 }
 
@@ -455,6 +460,42 @@ func setEnumInMux(c *collector) {
 	}
 }
 
+// an enum whose MINIMUM size is wider than its values need (SetMinSize while nothing references it), referenced
+// by a multiplexed enum signal with a follower: AddValue / UpdateIndex with indexes that still fit the minimum
+// size change nothing; the first index beyond it grows the signal by one bit.
+func minSizeInMux(c *collector) {
+	n := 0
+	for _, attachedTo := range []int{0, 1} {
+		for _, min := range []int{3, 5} {
+			for _, gap := range []int{0, 1, 2} {
+				for _, idx := range []int{2, 1<<uint(min-1) - 1, 1 << uint(min-1), 1<<uint(min) - 1, 1 << uint(min)} {
+					for _, viaUpdate := range []bool{false, true} {
+						var ops []op
+						if attachedTo == 1 {
+							ops = append(ops, mk("newmsg", 0, 0, 8))
+						}
+						ops = append(ops, mk("newmux", 2, 0, 16), op{k: "newenum"}, mk("setminsize", 0, 0, min), mk("addvalue", 0, 0, 1),
+							mk("newenumsig", 0, 0, 0), mk("newstd", 0, 0, 2))
+						if attachedTo == 1 {
+							ops = append(ops, mk("append", 0, 0, 0))
+						}
+						ops = append(ops, op{k: "muxinsert", a: 0, b: 1, z: 0, gids: []int{0, 1}},
+							op{k: "muxinsert", a: 0, b: 2, z: min + gap, gids: []int{0}})
+						if viaUpdate {
+							ops = append(ops, mk("updateindex", 0, 0, idx), mk("updateindex", 0, 0, 1))
+						} else {
+							ops = append(ops, mk("addvalue", 0, 0, idx), mk("addvalue", 0, 0, 0))
+						}
+						ops = append(ops, mk("muxshl", 0, 2, 1), mk("settype", 2, 0, 1))
+						n++
+						c.add(replay(ops, true), "minsize-mux", fmt.Sprintf("minsize-mux-%d", n))
+					}
+				}
+			}
+		}
+	}
+}
+
 // histories kept from earlier findings (always run first)
 var corpus = map[string][]string{
 	"c01": {
@@ -556,6 +597,14 @@ func main() {
 		defer c.coq.close()
 	}
 
+	if rp := os.Getenv("VERIF_REPLAY_OPS"); strings.HasPrefix(rp, "probe ") {
+		for _, p := range nameClashProbes() {
+			fmt.Printf("PROBE %s ok=%v %s\n", p.id, p.ok, p.detail)
+		}
+		runProbes(c)
+		finish(c, out, f, outPath)
+		return
+	}
 	if rp := os.Getenv("VERIF_REPLAY_OPS"); rp != "" {
 		ops := parseOps(rp)
 		r := replay(ops, true)
@@ -579,6 +628,8 @@ func main() {
 	d36Family(c)
 	fixedGroups(c)
 	setEnumInMux(c)
+	minSizeInMux(c)
+	runProbes(c)
 
 	nRandom, nOps, depth := 400, 30, 3
 	if mode == "c07" {
